@@ -82,7 +82,8 @@ def every_iteration_reaches(ck: Checker, func: Func, loop: ast.AST, site: ast.AS
 
 
 def returns_of(func: Func) -> list[ast.Return]:
-    return [n for n in find_nodes(func.node, lambda n: isinstance(n, ast.Return))]  # type: ignore[misc]
+    """the return statements of the function itself (not those of helpers copied to their call sites)"""
+    return [n for n in find_nodes(func.node, lambda n: isinstance(n, ast.Return) and not getattr(n, "ngosa_inline", False))]  # type: ignore[misc]
 
 
 def is_const(node: Optional[ast.AST], value: object) -> bool:
